@@ -79,12 +79,16 @@ class ImplRunner:
         if k == "cfg":
             return self.do_cfg(t)
         if k == "state":
-            return (
-                f"valid={1 if self.db.index.valid else 0} contents="
-                + self.show_points(self.contents())
-            )
+            try:
+                c = self.show_points(self.contents())
+            except Exception as e:
+                c = "[UNREADABLE " + type(e).__name__ + "]"
+            return f"valid={1 if self.db.index.valid else 0} contents=" + c
         if k == "idx":
-            return self.idx_line(t[1:])
+            try:
+                return self.idx_line(t[1:])
+            except Exception as e:
+                return "exc " + type(e).__name__
         try:
             return self.op(t, via)
         except Exception as e:  # the API call raised
@@ -102,6 +106,9 @@ class ImplRunner:
         if k == "ins":
             m = self._meas(t[1])
             pts = [V.build_point(p, tf) for p in t[2:]]
+            now = [p[1] for p in t[2:] if p != "!" and p[1].startswith("now:")]
+            if now:
+                return self._insert_with_now(now[0], pts, m, via, t)
             single = len(pts) == 1 and t[2] != "!" and self._single_insert(t)
             if via:
                 h = db.measurement(m)
@@ -220,6 +227,30 @@ class ImplRunner:
                 db.reindex()
             return "ok unit"
         raise ValueError(f"unknown op {t!r}")
+
+    def _insert_with_now(self, now_atom, pts, m, via, t):
+        """points without a time are stamped with the insertion time: pin `datetime.now` inside
+        tinyflux.database for the duration of the call"""
+        import tinyflux.database as DBM
+        from datetime import datetime as _dt
+
+        fixed = V.dt_of(int(now_atom[4:]))
+
+        class _Now(_dt):
+            @classmethod
+            def now(cls, tz=None):
+                return fixed if tz is not None else fixed.replace(tzinfo=None)
+
+        saved = DBM.datetime
+        DBM.datetime = _Now
+        try:
+            if via:
+                n = self.db.measurement(m).insert_multiple(pts)
+            else:
+                n = self.db.insert_multiple(pts, m)
+        finally:
+            DBM.datetime = saved
+        return f"ok {n}"
 
     @staticmethod
     def _single_insert(t):
